@@ -51,12 +51,12 @@ inductive Instr
   deriving DecidableEq, Repr
 
 /-- Where control is.  `inAsm`: still inside (or fallen off the end of) the asm statement;
-    `at a`: an indirect jump left the statement for code address `a`
+    `atAddr a`: an indirect jump left the statement for code address `a`
     (`a = lbl 0` ⇒ the resume point behind the asm of a suspended fiber — "atLabel0";
      otherwise the entry of a run function — "atFunction a"). -/
 inductive Rip
   | inAsm
-  | at (a : W)
+  | atAddr (a : W)
   deriving DecidableEq, Repr
 
 structure Machine where
@@ -87,13 +87,13 @@ def exec (lbl : Nat → W) : Instr → Machine → Machine
       let v := m.mem (m.reg .rsp)
       { m with reg := setR (setR m.reg .rsp (m.reg .rsp + 8)) d v }
   | .addImm imm d, m => { m with reg := setR m.reg d (m.reg d + BitVec.ofNat 64 imm) }
-  | .jmpReg t, m => { m with rip := .at (m.reg t) }
+  | .jmpReg t, m => { m with rip := .atAddr (m.reg t) }
   | .label _, m => m
 
-/-- Straight-line execution; an indirect jump ends the block with `rip = at target`. -/
+/-- Straight-line execution; an indirect jump ends the block with `rip = atAddr target`. -/
 def run (lbl : Nat → W) : List Instr → Machine → Machine
   | [], m => m
-  | .jmpReg t :: _, m => { m with rip := .at (m.reg t) }
+  | .jmpReg t :: _, m => { m with rip := .atAddr (m.reg t) }
   | i :: is, m => run lbl is (exec lbl i m)
 
 /-! ### Entry into the asm statement: operand bindings -/
